@@ -201,7 +201,7 @@ def check_c18(tier, seed, replay):
     t0 = time.time()
     with chk.Lock():
         tr = chk.step_extract()
-        lean = chk.step_lean("C18")
+        lean = chk.step_lean("C18", recheck=(tier == "thorough"))
         hok, hlog = chk.step_harness(["debug"])
     problems = []
     if not lean["driver"]:
